@@ -33,13 +33,13 @@ impl Prop for C11Prop {
             large_pct: 15,
             n_small: (0, 9),
             n_large: (10, 16),
-            regimes: vec![WeightRegime::AllNan, WeightRegime::Dyadic, WeightRegime::Nasty, WeightRegime::SmallInt, WeightRegime::MixedScale, WeightRegime::Tiny],
+            regimes: vec![WeightRegime::AllNan, WeightRegime::Dyadic, WeightRegime::Nasty, WeightRegime::MostlyOnes, WeightRegime::SmallInt, WeightRegime::MixedScale, WeightRegime::Tiny],
             kinds,
             shapes: Some(vec![Shape::Gnp, Shape::Gnp, Shape::Cliques, Shape::Cliques, Shape::Star, Shape::Grid, Shape::Bipartite, Shape::Cycle, Shape::Tree, Shape::Union]),
             lifecycle_pct: 25,
             keyings: 1,
             boundary_per_mille: 8,
-            huge_one_in: 1500,
+            huge_one_in: 800,
             hub_one_in: 0,
         }
         .gen("C11", seed, idx / 8 * 7 + idx % 8);
@@ -219,6 +219,11 @@ impl Prop for C11Prop {
                     }
                 }
                 // square clustering has no error channel: exercised only on the graphs it is specified for
+                // (not on dense graphs of more than 6 000 edges: the call and its oracle take minutes there)
+                if snap.edges.len() > 6000 {
+                    cx.count("skipped.square_clustering_on_a_large_dense_graph");
+                    continue;
+                }
                 let sq = lib!("square_clustering", cluster::square_clustering(g, nn));
                 if sq.len() != ids.len() {
                     cx.fail("C11.subset_keys", &format!("square_clustering keys ({})", what), format!("square_clustering({}) returned {} entries for {} requested nodes", what, sq.len(), ids.len()));
@@ -266,7 +271,7 @@ impl Prop for C11Prop {
         }
     }
     fn rule(&self) -> String {
-        "single-edge graphs, directed and undirected, with and without self-loops, isolated and degree-1 nodes, n <= 16 (cliques, G(n,p), stars, grids, bipartite, lifecycle-built), unweighted or positive weights (dyadic, integer, decimal), under 3 (quick) / 5 (thorough) hash keyings; clustering (undirected, Fagiolo directed, Onnela weighted), average_clustering, triangles, transitivity, generalized_degree, square_clustering vs the definitions at 1e-9, coefficients in [0,1], for all nodes and for random non-empty proper subsets (keys = subset, values = full computation); one case in eight is a multi-edge graph, which must be refused with WrongMethod; directed graphs must be refused by the undirected-only functions. distinct_nontrivial = distinct graphs containing a triangle; one case in 1500 is a dense graph (1-3 blocks, 60-300 nodes) with 2 100 - 12 500 stored edges under a pool of 2-16 workers (strategy thresholds)".into()
+        "single-edge graphs, directed and undirected, with and without self-loops, isolated and degree-1 nodes, n <= 16 (cliques, G(n,p), stars, grids, bipartite, lifecycle-built), unweighted or positive weights (dyadic, integer, decimal), under 3 (quick) / 5 (thorough) hash keyings; clustering (undirected, Fagiolo directed, Onnela weighted), average_clustering, triangles, transitivity, generalized_degree, square_clustering vs the definitions at 1e-9, coefficients in [0,1], for all nodes and for random non-empty proper subsets (keys = subset, values = full computation); one case in eight is a multi-edge graph, which must be refused with WrongMethod; directed graphs must be refused by the undirected-only functions. distinct_nontrivial = distinct graphs containing a triangle; one case in 800 is a dense graph (1-3 blocks, 60-300 nodes) with 2 100 - 12 500 stored edges under a pool of 2-16 workers (strategy thresholds); in a third of the cases a battery of valid unjudged calls runs first on a sibling graph (same names and edges, other node order), in a fifth the graph is queried on the same object before its last one to three operations are applied (DESIGN.md 0.2); square_clustering is not called on graphs of more than 6 000 edges (minutes per call)".into()
     }
     fn assumptions(&self) -> Vec<String> {
         vec!["weighted clustering: either max-weight convention is accepted when a self-loop carries the largest weight".into(), "average_clustering over an empty counted set is not checked (0/0)".into(), "square_clustering (no error channel) is exercised on undirected graphs only".into()]
